@@ -73,7 +73,9 @@ def t_lifecycle(op, status, otype='LIMIT', side='buy'):
                             reduce_only=h.branch(h.bool('reduce_only')), status=status)
         before = dict(o.f)
         h.cover(f'{op}.{status}.pre')
-        out = h.method_outcome(o, op)
+        # execute(silent=...) only silences logging / notifications: both values are enumerated
+        kw = {'silent': True} if (op == 'execute' and h.branch(h.bool('silent'))) else {}
+        out = h.method_outcome(o, op, **kw)
         h.prove(out.ok, f'{op}.no-exception', {'raised': out.exc})
         if not out.ok:
             return
